@@ -22,6 +22,7 @@ pub mod c20;
 use crate::engine::Prop;
 
 pub fn get(id: &str) -> Option<Box<dyn Prop>> {
+  let _ = crate::engine::NOISE.set(c10::noise_step);
   match id {
     "C01" => Some(Box::new(c01::C01)),
     "C02" => Some(Box::new(c02::C02)),
